@@ -29,10 +29,13 @@ func TestOracleC18(t *testing.T) {
 	rng := rand.New(rand.NewSource(seed))
 	deadline := time.Now().Add(budget)
 	fails := 0
+	cases := 0
+	defer func() { fmt.Printf("ORACLE-CASES: %d seed=%d\n", cases, seed) }()
 	keyLens := []int{0, 1, 19, 20, 21, 32, 33, 63, 64, 65, 80, 200, 300}
 	for time.Now().Before(deadline) && fails < 3 {
 		history := ""
 		for step := 0; step < 6 && fails < 3; step++ {
+			cases++
 			sha256Mode := rng.Intn(2) == 0
 			key := make([]byte, keyLens[rng.Intn(len(keyLens))])
 			rng.Read(key)
